@@ -26,7 +26,12 @@
         why); hdf_xdr_cdf's XDR_DECODE branch (SDstart, not the close path) is not modelled; callees outside the
         model (Hputelement, Vend, VSwrite, Hclose seen from NC_free_cdf ...) are assumed to make checked device
         calls, i.e. to be fault-visible themselves.
-    Crash / hang / memory safety is decided by the sanitizer runs only. *)
+    (5) round 2 -- [ddgrow_matches_source], [ddgrow_fault_visible], [newblock_never_dangling]: HPgetdiskblock,
+        HTIupdate_dd and HTInew_dd_block (the write-through branches that only run with DD caching off) are modelled,
+        tied to the generated tables and fault-visible; and the one memory-safety fact that is about error flow --
+        the DD block linked into the list before the last I/O step is never freed by the error clean-up -- is a
+        theorem over the regenerated clean-up.
+    Otherwise crash / hang / memory safety is decided by the sanitizer runs only. *)
 From Coq Require Import ZArith List Bool String.
 Require Import H4.gen.Gen_Faults H4.FaultSpec H4.FaultModel H4.FaultProofs.
 Import ListNotations.
@@ -106,7 +111,7 @@ Theorem anchored_covers :
   ["HP_read"; "HP_write"; "HPseek"; "hi_close_stdio"; "HIextend_file"; "HIsync"; "HTPsync"; "HTPend";
    "HIrelease_filerec_node"; "HIupdate_version"; "Hclose"; "Hsync"; "HPread_drec"; "Vdetach"; "VSdetach";
    "HMCPcloseAID"; "HMCPendaccess"; "mcache_sync"; "ncclose"; "NC_free_cdf"; "hdf_close"; "hdf_xdr_cdf"; "xdr_cdf";
-   "SDend"; "SDendaccess"].
+   "SDend"; "SDendaccess"; "HPgetdiskblock"; "HTIupdate_dd"; "HTInew_dd_block"].
 Proof. exact anchored_covers_lemma. Qed.
 Print Assumptions anchored_covers.
 
@@ -158,6 +163,29 @@ Theorem anchored_table_fault_visible : forall (St : Type) (p : prog St), no_drop
   visible_prog St p /\ forallb (fun s => cls_ok (snd s)) (sites St p) = true.
 Proof. exact anchored_table_fault_visible_lemma. Qed.
 Print Assumptions anchored_table_fault_visible.
+
+(** (5) round 2: DD-block growth and write-through descriptor updates (the code that only runs with DD caching off) *)
+Theorem ddgrow_matches_source :
+  sites frec (HPgetdiskblock_prog (fun _ => 1) true) = norm_sites sites_HPgetdiskblock /\
+  sites frec (HTIupdate_dd_prog cur_off) = norm_sites sites_HTIupdate_dd /\
+  sites frec HTInew_dd_block_prog = norm_sites sites_HTInew_dd_block /\
+  fact_HTInew_dd_block_io_after_publication = true.
+Proof. exact ddgrow_matches_source_lemma. Qed.
+Print Assumptions ddgrow_matches_source.
+
+Theorem ddgrow_fault_visible :
+  (forall size mv, visible_prog frec (HPgetdiskblock_prog size mv)) /\
+  (forall off, visible_prog frec (HTIupdate_dd_prog off)) /\ visible_prog frec HTInew_dd_block_prog.
+Proof. exact ddgrow_visible_lemma. Qed.
+Print Assumptions ddgrow_fault_visible.
+
+(** memory safety of HTInew_dd_block's error path, for every file record and every fault placement: the block that
+    has been linked into the in-memory list (before the last I/O step: fact above) is never freed by the clean-up at
+    `done:`.  The clean-up in the model is what the translator finds in the current source. *)
+Theorem newblock_never_dangling : forall st o r l st' o' tr,
+  nb_freed st = false -> exec frec HTInew_dd_block_prog st o = (r, l, st', o', tr) -> nb_dangling st' = false.
+Proof. exact newblock_never_dangling_lemma. Qed.
+Print Assumptions newblock_never_dangling.
 
 (** S-level: the two formulations of the property on observations *)
 Theorem visible_implies_judge : forall o,
@@ -216,3 +244,14 @@ Example sdend_every_fault_reported :
   [false; false; false; false; false; false; false; false; false; false; false; false; false; false; false; true; true] /\
   not_indef env_sdend.
 Proof. repeat split; vm_compute; reflexivity. Qed.
+
+(** HTInew_dd_block, not caching, one full block: seven device calls; a fault at the last two (the link update in the
+    file) makes it fail AFTER the block has been published -- the state the safety theorem is about *)
+Example newblock_runs :
+  (let '(ok, st, _, tr) := run_fn frec HTInew_dd_block_prog st_nocache_full [] in (ok, map fst tr, nb_published st)) =
+  (true, [DSeek; DWrite; DSeek; DWrite; DWrite; DSeek; DWrite], true) /\
+  map (fun k => let '(ok, st, _, _) := run_fn frec HTInew_dd_block_prog st_nocache_full (plan k false 0) in
+                (ok, nb_published st)) (seq 0 8) =
+  [(false, false); (false, false); (false, false); (false, false); (false, false); (false, true); (false, true);
+   (true, true)].
+Proof. split; vm_compute; reflexivity. Qed.
